@@ -571,6 +571,12 @@ class CallMixin:
             return self.modular_call(f, e, st, vals)
         if f.full in self.cfg.get("inline", ()) or self.prog.short(f.full) in self.cfg.get("inline", ()):
             return self.inline_call(f, e, st, vals)
+        if not self.spec and f.node.get("Body") is not None:
+            # a contract-less function of the module treated as an opaque operation: remembered, so that a failing
+            # proof can be re-tried with the helper's body in view (a refactoring that extracts a helper is harmless)
+            if not hasattr(self, "abstracted_inmodule"):
+                self.abstracted_inmodule = set()
+            self.abstracted_inmodule.add(f.full)
         return self.unknown_call(f.full, e, st, evaluated=True)
 
     def abstract_call(self, f, vals, st):
